@@ -107,6 +107,7 @@ def run(db, res, tier):
   if hi.unresolved_launches:
     res.error(f"unresolved launches in io.reset_data: {hi.unresolved_launches[:3]}")
   effs = effects.trace_effects(db, hi)
+  common.check_mask_normalisation(res, db, "io.reset_data", "reset")
   written: Dict[str, List] = {}
   for e in effs:
     for k in e.writes:
